@@ -7,6 +7,7 @@ import (
 	"log"
 	"runtime"
 	"runtime/debug"
+	"sort"
 
 	"github.com/robfig/soy/ast"
 	"github.com/robfig/soy/data"
@@ -221,9 +222,17 @@ func (s *state) walk(node ast.Node) {
 		}
 		s.val = data.List(items)
 	case *ast.MapLiteralNode:
-		var items = make(data.Map, len(node.Items))
-		for k, v := range node.Items {
-			items[k] = s.eval(v)
+		// the items are evaluated in the order of their keys (not in Go's map
+		// order): which of several failing items an error names, and the order
+		// of user function calls, is the same for every render.
+		var keys = make([]string, 0, len(node.Items))
+		for k := range node.Items {
+			keys = append(keys, k)
+		}
+		sort.Strings(keys)
+		var items = make(data.Map, len(keys))
+		for _, k := range keys {
+			items[k] = s.eval(node.Items[k])
 		}
 		s.val = data.Map(items)
 	case *ast.FunctionNode:
